@@ -45,6 +45,7 @@ var c01genKinds = []struct {
 	{"MM", reflect.TypeOf(map[string]map[string]int8(nil)), ""}, // map of maps
 	{"TUr", reflect.TypeOf(c01TUrefs{}), ""},                // text-unmarshalable struct with reference fields
 	{"KeepM", reflect.TypeOf(map[string]int8(nil)), `dials:"-"`}, // exported, unmanaged, reference-bearing
+	{"PCh", reflect.TypeOf((*chan int)(nil)), ""},                 // user-declared pointer to a channel (kept by ptrify, skipped by overlay?)
 }
 
 // c01genDefault fills a value of the generated type with symbolic defaults.
@@ -59,6 +60,13 @@ func c01genDefault(v reflect.Value, ch chan int, fn func()) {
 		case reflect.Func:
 			f.Set(reflect.ValueOf(fn))
 		case reflect.Ptr:
+			if f.Type().Elem().Kind() == reflect.Chan {
+				if zzverif.Choose(name+"_nonnil", 2) == 1 {
+					c := ch
+					f.Set(reflect.ValueOf(&c))
+				}
+				continue
+			}
 			if zzverif.Choose(name+"_nonnil", 2) == 1 {
 				f.Set(c01whole(name, f.Type(), 0))
 			}
